@@ -441,6 +441,20 @@ pub fn main(args: &Args) {
                     r.count("handwritten_boundary_texts", 1);
                 }
             }
+            // wide documents: many siblings of every value kind at small depth (a depth counter or any other
+            // per-call state that leaks on one path shows up only after hundreds of repetitions)
+            for item in ["[]", "{}", "[1]", "{\"a\":1}", "\"\"", "\"x\"", "1", "-0.5e1", "null", "true", "[[]]", "[{}]", "{\"a\":[]}", "{\"a\":{}}", "\"\\u00e9\"", "\"\\ud83d\\ude00\""] {
+                for n in [2usize, 255, 256, 257, 300, 1000] {
+                    let arr = format!("[{}]", vec![item; n].join(","));
+                    judge(&mut r, &arr, "wide-array", true);
+                    let obj = format!("{{{}}}", (0..n).map(|i| format!("\"k{}\":{}", i, item)).collect::<Vec<_>>().join(","));
+                    judge(&mut r, &obj, "wide-object", true);
+                    let nested = format!("[[{}],{{\"z\":[{}]}}]", vec![item; n].join(" , "), vec![item; n / 2 + 1].join(","));
+                    judge(&mut r, &nested, "wide-nested", true);
+                    r.count("wide_documents", 3);
+                    r.max("max_siblings_tried", n as u64);
+                }
+            }
             // nesting depth around the limit (and well beyond)
             for kind in 0..3 {
                 for d in [1usize, 2, 100, 255, 256, 257, 258, 300, 1000, 5000] {
@@ -515,6 +529,19 @@ pub fn main(args: &Args) {
                 r.sample(J::obj(vec![("kind", J::s("generated value (canonical form)")), ("value", J::s(show(c.as_bytes(), 160)))]));
             }
         }
+        // wide values through the serialiser and back (the parser must take its own output)
+        if shard == 0 {
+            for n in [256usize, 300, 1000] {
+                for leaf in [RV::Arr(vec![]), RV::Obj(vec![]), RV::Null, RV::Str(String::new()), RV::Num(1.0)] {
+                    let v = RV::Arr(vec![leaf.clone(); n]);
+                    judge_serialize(&mut r, &v, None);
+                    judge_serialize(&mut r, &v, Some(2));
+                    let o = RV::Obj((0..n).map(|i| (format!("k{}", i), leaf.clone())).collect());
+                    judge_serialize(&mut r, &o, None);
+                    judge_serialize(&mut r, &o, Some(1));
+                }
+            }
+        }
         // every scalar char class once through the serialiser: all BMP chars + sampled astral, in a string
         if shard == 0 {
             let mut cp = 0u32;
@@ -546,7 +573,7 @@ pub fn main(args: &Args) {
     }
     total.sample(J::obj(vec![("kind", J::s("enumerated token sequence")), ("text", J::s("{\"a\":1 \"a\":1}")), ("reference", J::s("reject: missing-comma-object"))]));
     total.sample(J::obj(vec![("kind", J::s("enumerated number-like string")), ("text", J::s("-0.1e+9")), ("reference", J::s("accept"))]));
-    let rule = "all strings up to length L1 over the 16-symbol alphabet {{ }} [ ] : , \" \\ u 0 1 - . e t SP} (L1=5 quick, 6 thorough); all sequences of up to L2 tokens over 13 JSON tokens incl. literals, a member and a signed/fraction/exponent number (L2=5/6); all number-like strings up to L3 over {+,-,.,0,1,9,e,E} (L3=6/7); handwritten boundary texts x 6 contexts; nesting depths 1..5000 x 3 shapes; grammar-generated documents (every escape form, surrogate pairs, whitespace everywhere, duplicate keys) and single-edit mutants (delete/replace/insert at every position for documents <= 60 chars); generated values through serialize and serialize_pretty(0..8). non-trivial = the reference accepts, or the SUT accepts, or Rust's float parser accepts the text, or it is a mutant/boundary text; distinct = distinct texts";
+    let rule = "all strings up to length L1 over the 16-symbol alphabet {{ }} [ ] : , \" \\ u 0 1 - . e t SP} (L1=5 quick, 6 thorough); all sequences of up to L2 tokens over 13 JSON tokens incl. literals, a member and a signed/fraction/exponent number (L2=5/6); all number-like strings up to L3 over {+,-,.,0,1,9,e,E} (L3=6/7); handwritten boundary texts x 6 contexts; nesting depths 1..5000 x 3 shapes; wide documents (2..1000 siblings of 16 value kinds in arrays, objects and nested); grammar-generated documents (every escape form, surrogate pairs, whitespace everywhere, duplicate keys) and single-edit mutants (delete/replace/insert at every position for documents <= 60 chars); generated values through serialize and serialize_pretty(0..8). non-trivial = the reference accepts, or the SUT accepts, or Rust's float parser accepts the text, or it is a mutant/boundary text; distinct = distinct texts";
     total.write(out, rule, Some(true), &[
         "reference: hand-written RFC 8259 recogniser+evaluator (jsonref.rs), cross-validated each run against CPython json.loads on a dumped sample; escapes denoting unpaired surrogates and grammatically valid numbers beyond the finite f64 range are not judged (either answer allowed)",
         "number values are obtained with Rust's correctly-rounded float parser from tokens the recogniser has validated against the RFC grammar",
